@@ -60,6 +60,17 @@ class Custom2(AuthPlugin):
         yield Success(info.username)
 
 
+class Trust(AuthPlugin):
+    """accepts whoever answers; no client plugin name (None = any)"""
+    name = "trust"
+    client_plugin_name = None
+
+    async def auth(self, auth_info=None):
+        if not auth_info:
+            auth_info = yield b"0" * 20 + b"\x00"
+        yield Success(auth_info.username)
+
+
 class IDP(IdentityProvider):
     def __init__(self, plugins, users):
         self.p = plugins
@@ -77,9 +88,10 @@ PW = ["pw", "pässwörd", "密码", "\U0001f600x", "a b", "p" * 40]
 
 def make_config(rng):
     clear_table = [("carl", b"secret"), ("carl", "sëcret".encode()), ("dflt", b"dpw")]
-    kinds = ["native", "clear", "nologin", "custom2"]
+    clear2_table = [("dora", b"hunter2"), ("carl", b"nope")]
+    kinds = ["native", "clear", "nologin", "custom2", "clear2", "trust"]
     rng.shuffle(kinds)
-    kinds = kinds[: rng.randrange(1, 5)]
+    kinds = kinds[: rng.randrange(1, 6)]
     if "native" not in kinds and rng.random() < 0.7:
         kinds.insert(rng.randrange(len(kinds) + 1), "native")
     plugins, lines = [], ["auth reset"]
@@ -90,6 +102,14 @@ def make_config(rng):
         elif k == "clear":
             plugins.append(Clear(clear_table))
             lines.append("auth plugin clearpw %s clear:%s" % (hexs(b"mysql_clear_password"), ";".join("%s=%s" % (hexs(u.encode()), hexs(p)) for u, p in clear_table)))
+        elif k == "clear2":
+            c2 = Clear(clear2_table)
+            c2.name = "clearpw2"
+            plugins.append(c2)
+            lines.append("auth plugin clearpw2 %s clear:%s" % (hexs(b"mysql_clear_password"), ";".join("%s=%s" % (hexs(u.encode()), hexs(p)) for u, p in clear2_table)))
+        elif k == "trust":
+            plugins.append(Trust())
+            lines.append("auth plugin trust - trust")
         elif k == "nologin":
             plugins.append(NoLoginAuthPlugin())
             lines.append("auth plugin mysql_no_login - nologin")
@@ -105,6 +125,8 @@ def make_config(rng):
         "bad": User("bad", rng.choice(["zz", "abc", "12 3", "0g" * 20]), "mysql_native_password"),
         "upper": User("upper", cas(pw).upper(), "mysql_native_password"),
         "carl": User("carl", None, "clearpw"),
+        "dora": User("dora", None, "clearpw2"),
+        "tom": User("tom", None, "trust"),
         "nl": User("nl", None, "mysql_no_login"),
         "cust": User("cust", None, "custom2"),
         "dflt": User("dflt", cas("dpw"), None),
@@ -164,7 +186,7 @@ def classify(p):
     if p[:1] == b"\x00":
         return "ok"
     if p[:1] == b"\xff":
-        code = parse_err(p)[0]
+        code = parse_err(p, proto41=(p[3:4] == b"#"))[0]
         return {3162: "errU", 1045: "errD"}.get(code, "err%d" % code)
     if p[:1] == b"\xfe":
         j = p.index(b"\0", 1)
@@ -198,10 +220,12 @@ def reference_accept(users, user_key, plugins, exchange, meta):
             if sha1(cand).digest() == st:
                 return True
         return False
-    if pname == "clearpw":
+    if pname in ("clearpw", "clearpw2"):
         resp = exchange[-1][1]
         pw = resp.split(b"\0")[0]
-        return (user_key, pw) in plugins[names.index("clearpw")].table
+        return (user_key, pw) in plugins[names.index(pname)].table
+    if pname == "trust":
+        return True
     if pname == "mysql_no_login":
         return False
     if pname == "custom2":
@@ -405,6 +429,8 @@ async def login_default(a, plugins, greet_data):
         await a.send(pkt(1, hs_response("dflt", auth=scramble(b"dpw", greet_data.rstrip(b"\0")), plugin="mysql_native_password")))
     elif d.name == "clearpw":
         await a.send(pkt(1, hs_response("dflt", auth=b"dpw\0", plugin="mysql_clear_password")))
+    elif d.name == "trust":
+        await a.send(pkt(1, hs_response("dflt", auth=b"", plugin="anything")))
     elif d.name == "custom2":
         await a.send(pkt(1, hs_response("dflt", auth=b"a", plugin="custom2_client")))
         o = a.take()
@@ -450,4 +476,5 @@ def main():
 
 
 if __name__ == "__main__":
-    main()
+    from framework import guarded
+    guarded("C02", main)
